@@ -244,10 +244,16 @@ func Y(site uint32) {
 	s.step(site)
 }
 
+// TraceSites, when non-nil, receives every yield site visited (debugging aid).
+var TraceSites *[]uint32
+
 //go:norace
 func (s *Sched) step(site uint32) {
 	if s.abort {
 		panic(abortSentinel)
+	}
+	if TraceSites != nil {
+		*TraceSites = append(*TraceSites, site)
 	}
 	t := s.cur
 	s.Steps++
